@@ -49,7 +49,12 @@ func (x *g) genService(i int, used map[string]bool) {
 		x.s.AddFeature("api-error-referenced")
 	}
 	if len(x.s.Schemes) > 0 {
-		switch x.r.Intn(3) {
+		// requirements declared on the service are inherited by every method that does not override them
+		n := 3
+		if x.o.Profile == "security" {
+			n = 2
+		}
+		switch x.r.Intn(n) {
 		case 0:
 			sv.Security = x.genRequirements(2)
 			x.s.AddFeature("service-security")
@@ -163,7 +168,7 @@ func (x *g) genMethod(sv *spec.Service, j int, used map[string]bool) {
 	// ---- security (needs an object payload we own: inline)
 	if len(x.s.Schemes) > 0 {
 		switch {
-		case m.Payload != nil && m.Payload.Type.Kind == spec.Object && x.chance(1, 2):
+		case m.Payload != nil && m.Payload.Type.Kind == spec.Object && (x.chance(1, 3) || len(x.s.EffectiveSecurity(sv, m)) == 0 && x.chance(1, 2)):
 			m.Security = x.genRequirements(3)
 			x.s.AddFeature("method-security")
 		case x.chance(1, 6) && len(x.s.EffectiveSecurity(sv, m)) > 0:
@@ -354,6 +359,7 @@ func (x *g) addSecurityAttrs(sv *spec.Service, m *spec.Method) {
 }
 
 var headerWire = []string{"X-Request-Tag", "X-Lab", "x-lower", "Accept-Thing", "X-MiXed-Case", "If-Lab", "X_Under"}
+var cookieWire = []string{"SID", "sess-id", "c_1", "Lab.Cookie", "track"}
 var queryWire = []string{"q", "filter", "sort-by", "pageSize", "x.y", "Z"}
 
 // genHTTP distributes the payload over the request and the result over the response.
@@ -442,11 +448,15 @@ func (x *g) genHTTP(sv *spec.Service, m *spec.Method, idx int) {
 							x.s.AddFeature("apikey-header")
 						}
 					default:
-						c := x.r.Intn(3)
-						if hasBasic || authHeaderUsed {
+						c := x.r.Intn(4)
+						if (hasBasic || authHeaderUsed) && c < 2 {
 							c = 2
 						}
 						switch c {
+						case 3:
+							// the token travels in the query string
+							h.Query = append(h.Query, spec.Loc{Attr: a.Name, Wire: wire(queryWire, a.Name)})
+							x.s.AddFeature("token-query")
 						case 0:
 							// implicit: Authorization header
 							authHeaderUsed = true
@@ -496,7 +506,7 @@ func (x *g) genHTTP(sv *spec.Service, m *spec.Method, idx int) {
 						x.s.AddFeature("header-default")
 					}
 				case where == 5 && prim && x.chance(1, 2):
-					h.Cookies = append(h.Cookies, spec.Loc{Attr: a.Name})
+					h.Cookies = append(h.Cookies, spec.Loc{Attr: a.Name, Wire: wire(cookieWire, a.Name)})
 					x.s.AddFeature("cookie")
 				default:
 					hasBody = true
@@ -646,6 +656,18 @@ func (x *g) genHTTP(sv *spec.Service, m *spec.Method, idx int) {
 		m.HTTP.Errors[1].Status = m.HTTP.Errors[0].Status
 		x.s.AddFeature("errors-share-status")
 	}
+	// three errors of ONE Go type (the default error type): two share a status, the third has a status of its own
+	if len(m.Errors) >= 3 && len(m.HTTP.Errors) >= 3 && !inlinePair && x.chance(1, 2) {
+		for i := 0; i < 3; i++ {
+			m.Errors[i].Type = nil
+			m.HTTP.Errors[i].Headers, m.HTTP.Errors[i].Body = nil, ""
+		}
+		m.HTTP.Errors[1].Status = m.HTTP.Errors[0].Status
+		for m.HTTP.Errors[2].Status == m.HTTP.Errors[0].Status {
+			m.HTTP.Errors[2].Status = pickErrStatus(x.r)
+		}
+		x.s.AddFeature("errors-share-status", "errors-same-type-two-groups")
+	}
 }
 
 // pathOK: path parameters cannot carry validations that allow the empty string only, etc. Keep simple.
@@ -731,7 +753,21 @@ func (x *g) genResponses(sv *spec.Service, m *spec.Method) {
 					x.s.AddFeature("response-header-default")
 				}
 			case prim && (c == 2 && x.chance(1, 2) || len(r.Cookies) > 0 && x.chance(1, 2) || x.o.Profile == "http-loc" && c == 3):
-				r.Cookies = append(r.Cookies, spec.Loc{Attr: a.Name})
+				cw := ""
+				if x.chance(1, 2) {
+					cw = x.r.Pick("SID", "sess-id", "c_1", "Lab.Cookie")
+					for _, e := range r.Cookies {
+						if e.WireName() == cw {
+							cw = ""
+						}
+					}
+					for _, a2 := range rt.Attrs {
+						if a2.Name == cw {
+							cw = ""
+						}
+					}
+				}
+				r.Cookies = append(r.Cookies, spec.Loc{Attr: a.Name, Wire: cw})
 				x.s.AddFeature("response-cookie")
 				if len(r.Cookies) > 1 {
 					x.s.AddFeature("response-cookies-several")
